@@ -253,7 +253,7 @@ pub fn estimate_profile(sc: &Scenario) -> Profile {
 
 fn c01_build(_ctx: &Ctx, tier: Tier, seed: u64) -> Vec<Job<'static>> {
     let (n_ff, n_wild) = match tier {
-        Tier::Quick => (3_000, 30_000),
+        Tier::Quick => (5_000, 100_000),
         Tier::Thorough => (50_000, 1_500_000),
     };
     let ff = Job {
@@ -285,7 +285,7 @@ fn c01_build(_ctx: &Ctx, tier: Tier, seed: u64) -> Vec<Job<'static>> {
 
 fn c02_build(ctx: &Ctx, tier: Tier, seed: u64) -> Vec<Job<'static>> {
     let (n_ff, n_rand, grid_cfgs, pairs) = match tier {
-        Tier::Quick => (2_000, 20_000, 24, false),
+        Tier::Quick => (4_000, 60_000, 48, false),
         Tier::Thorough => (20_000, 600_000, 200, true),
     };
     let ff = Job {
@@ -395,7 +395,7 @@ fn c02_build(ctx: &Ctx, tier: Tier, seed: u64) -> Vec<Job<'static>> {
 
 fn c03_build(ctx: &Ctx, tier: Tier, seed: u64) -> Vec<Job<'static>> {
     let (grid_cfgs, n_wild) = match tier {
-        Tier::Quick => (40, 20_000),
+        Tier::Quick => (40, 40_000),
         Tier::Thorough => (600, 600_000),
     };
     let root = ctx.root(997);
@@ -496,6 +496,24 @@ fn c03_build(ctx: &Ctx, tier: Tier, seed: u64) -> Vec<Job<'static>> {
             if rng.chance(1, 6) {
                 sc.script.push(Entry::Stall { ent: rng.usize_below(2), at: Trigger::At(rng.range(0, 2_000_000)), us: rng.range(1000, 8_000_000) });
             }
+            // user requests: a cancel, or a suspend followed by a cancel, must not leave anything
+            // waiting for ever either (a suspension that is never lifted is exempt)
+            if rng.chance(1, 3) {
+                let ent = rng.usize_below(2);
+                let at = Trigger::AfterPdu { src: 0, dst: 1, n: rng.below(prof.fwd.len() as u64 + 2) as u32 };
+                match rng.below(4) {
+                    0 => sc.script.push(Entry::User { ent, op: UserOp::Cancel, put: 0, at }),
+                    1 => {
+                        sc.script.push(Entry::User { ent, op: UserOp::Suspend, put: 0, at: at.clone() });
+                        sc.script.push(Entry::User { ent, op: UserOp::Cancel, put: 0, at: Trigger::Plus(Box::new(at), *rng.pick(&[0u64, 1000, 2_000_000])) });
+                    }
+                    2 => {
+                        sc.script.push(Entry::User { ent, op: UserOp::Suspend, put: 0, at: at.clone() });
+                        sc.script.push(Entry::User { ent, op: UserOp::Resume, put: 0, at: Trigger::Plus(Box::new(at), *rng.pick(&[0u64, 1000, 2_000_000, 30_000_000])) });
+                    }
+                    _ => sc.script.push(Entry::User { ent, op: UserOp::Suspend, put: 0, at }),
+                }
+            }
             sc
         }),
     };
@@ -518,7 +536,7 @@ fn simple_put(sc: &mut Scenario, unack: bool, size: u64, class: Content, cseed: 
 
 fn c18_build(ctx: &Ctx, tier: Tier, seed: u64) -> Vec<Job<'static>> {
     let (grid_cfgs, pairs, n_wild) = match tier {
-        Tier::Quick => (48, false, 20_000),
+        Tier::Quick => (96, false, 80_000),
         Tier::Thorough => (240, true, 500_000),
     };
     let root = ctx.root(997);
